@@ -997,8 +997,8 @@ def run_nlink(env, nb, spec):
     img = os.path.join(env.work, "nl_%s_%s_%d.img" % (spec["prof"], spec["front"], len(spec["ops"])))
     fe = 1 if spec["front"] == "dbg" else 0
     made, nbulk = [], spec["start"] - 2
-    def obs_dbg():
-        rc, o, e = sh([env.drv, img, "nl", str(NLDIR)], env=env.env, timeout=300)
+    def obs_dbg(full=True):
+        rc, o, e = sh([env.drv, img, "nl", str(NLDIR)] + ([] if full else ["light"]), env=env.env, timeout=300)
         if rc != 0:
             raise RuntimeError("dirdrv nl failed rc=%d: %s" % (rc, e.decode("utf8", "replace")[-300:]))
         return json.loads(o)["nl"]
@@ -1031,7 +1031,7 @@ def run_nlink(env, nb, spec):
                 rc2, out, err = sh([os.path.join(env.b, "debugfs", "debugfs"), "-w", "-R", "%s /big/%s" % (op, name), img], env=env.env, timeout=300)
                 if rc2 < 0 or rc2 > 1:
                     raise RuntimeError("debugfs exited %d on %s: %s" % (rc2, op, err.decode("utf8", "replace")[-300:]))
-                o, res = obs_dbg(), "dbg"
+                o, res = obs_dbg(full=False), "dbg"
             lines.append({"e": op, "fe": fe, "r": res, "rc": 0, "nl": o})
             if o["links"] not in fscked or k == len(spec["ops"]) - 1:
                 fscked.add(o["links"])
@@ -1368,8 +1368,9 @@ def report(vd, bh, lines, matched, inv, tail):
     opn = "+".join(sorted({o["op"] for o in ln.get("ops", [])})) or ln["e"]
     what = ("invariant %s violated" % inv) if inv else "trace rejected"
     key = "%s@%s" % (what, opn)
-    vd.violation(key, "%s at line %d (%s, front end %s, profile %s/%d): %s" % (what, k, opn, bh["spec"]["front"], bh["spec"]["prof"], bh["spec"]["bs"],
-                                                                            json.dumps(ln.get("ops", []))[:200]),
+    edge = ("; catalogued edge " + ", ".join(ekey(e) for e in ln["eg"][:3])) if ln.get("eg") else ""
+    vd.violation(key, "%s at line %d (%s, front end %s, profile %s/%d): %s%s" % (what, k, opn, bh["spec"]["front"], bh["spec"]["prof"], bh["spec"]["bs"],
+                                                                              json.dumps(ln.get("ops", []))[:200], edge),
                  {"spec": bh["spec"], "steps": bh["steps"], "first_unmatched_line": k, "tlc_tail": tail[-1200:]})
 
 
@@ -1379,6 +1380,18 @@ def replay(path):
     work = fast_tmp()
     try:
         b = build.build(); env = Env(b, work)
+        if "nlink_walk" in rp:          # a walk across the link-count limit (Trace_DirNlink)
+            sp = rp["nlink_walk"]
+            sp["ops"] = [tuple(x) for x in sp["ops"]]
+            bh = run_nlink(env, NlinkBase(env), sp)
+            if bh["crash"]:
+                print("VIOLATION property=%s replay=%s (%s)" % (PID, path, bh["crash"])); return 1
+            tl = [json.dumps(x, separators=(",", ":")) for x in bh["lines"]]
+            rej, matched, inv, tail, _ = tracecheck.confirm(tl, os.path.join(SPEC, "Trace_DirNlink.tla"), nlink_cfg(work, sp["dirnlink"]), work, timeout=900)
+            if rej:
+                print("first unmatched line %s: %s" % (matched, tl[matched][:600] if matched is not None and matched < len(tl) else "?"))
+                print("VIOLATION property=%s replay=%s" % (PID, path)); return 1
+            print("replay accepted (%d lines)" % len(tl)); return 0
         bh = run_behaviour(env, rp["spec"], script=rp["steps"])
         if bh["crash"]:
             print("VIOLATION property=%s replay=%s (%s)" % (PID, path, bh["crash"])); return 1
